@@ -330,6 +330,7 @@ class SimRadio:
                 k += 1
                 if k > 15:
                     raise NonTermination("ARC loop")
+            rec["t_done"] = self.clock.now if self.clock else 0
             if ack is not None:
                 rec["acked"] = True
                 self._later(self._done_ok(ack[1], k))
